@@ -44,17 +44,32 @@ fn content(c: &Case) -> Vec<u8> {
     // a zero magic), a small defined id, or the "right" value - success and
     // size must not depend on them
     let other = (c.key >> 9) & 3;
+    // (one case in eight: every byte beside the size field is 0xFF - unwritten
+    // flash / unmapped reads; one in eight: small numbers as other structures
+    // carry them at this place, e.g. Multiboot 1's mem_lower <= 640)
+    let extreme = (c.key >> 13) & 7;
+    if extreme == 1 {
+        for b in v.iter_mut().take(16) {
+            *b = 0xFF;
+        }
+    } else if extreme == 2 {
+        for w in 0..4 {
+            put(&mut v, 4 * w, 1 + ((c.key >> (16 + 3 * w)) as u32 % 640));
+        }
+    }
     match c.hdr {
         0 | 1 => {
-            match other {
-                1 => put(&mut v, 0, 0),
-                2 => put(&mut v, 0, (c.key >> 11) as u32 % 22),
-                _ => {}
+            if extreme != 1 && extreme != 2 {
+                match other {
+                    1 => put(&mut v, 0, 0),
+                    2 => put(&mut v, 0, (c.key >> 11) as u32 % 22),
+                    _ => {}
+                }
             }
             put(&mut v, 4, c.declared)
         }
         2 => {
-            if other == 1 {
+            if other == 1 && extreme != 1 && extreme != 2 {
                 put(&mut v, 4, 0);
             }
             put(&mut v, 0, c.declared)
@@ -212,7 +227,9 @@ fn enumerate(ctx: &Ctx) -> Box<dyn Iterator<Item = Case>> {
             })
         })
     });
-    Box::new(it)
+    // a size field of all ones (with the other header bytes all ones, markers or zero)
+    let ones = (0u8..5).flat_map(|hdr| [8usize, 16, 24, 64].into_iter().flat_map(move |len| (0..8u64).map(move |k| Case { hdr, len, mis: 0, declared: u32::MAX, key: k << 13 | (k & 3) << 9 })));
+    Box::new(it.chain(ones))
 }
 
 /// Sizes at which a structure crosses something a specification or the
@@ -232,7 +249,7 @@ fn strategy(_: &Ctx) -> BoxedStrategy<Case> {
                 1 => (len as u32).wrapping_add(d % 17),
                 2 => (len as u32).saturating_sub(d % 17),
                 3 => d % 32,
-                4 => d,
+                4 => if d % 16 == 0 { u32::MAX } else { d },
                 6 => (BOUNDS[d as usize % BOUNDS.len()] as u32 + 8).saturating_sub((d >> 8) % 17),
                 7 => d % (len as u32 + 1),
                 _ => (len as u32 / 8 * 8).saturating_sub(d % 9),
@@ -319,7 +336,7 @@ pub fn subs() -> Vec<Box<dyn Sub>> {
     vec![
         Box::new(PropSub::<Case> {
             name: "ref_from_slice",
-            rule: "DynSizedStructure::<H>::ref_from_slice and BytesRef::<H>::try_from for H in {DummyTestHeader, TagHeader, BootInformationHeader, HeaderTagHeader, Multiboot2BasicHeader}. Enumerated completely: slice length 0..=56 (thorough 88) x start misalignment 0..=7 x declared size 0..=len+16. The header's other words (type, reserved, magic) are markers, zero, the byte-swapped magic, a small defined id or the right value: success and size must not depend on them. Every case is evaluated for its header kind and then, on the same memory (same address and length), for the other four kinds. Generated: lengths to 70000 incl. 8-aligned lengths around 4096/8192/16384/32768/65536, declared sizes around the length / around those bounds / tiny / uniform below the length / random. Oracle: error precedence of the statement, then address/header/payload/size_of_val equalities. Non-trivial = every case except (valid, declared == len); distinct by (header, len, misalignment, declared)",
+            rule: "DynSizedStructure::<H>::ref_from_slice and BytesRef::<H>::try_from for H in {DummyTestHeader, TagHeader, BootInformationHeader, HeaderTagHeader, Multiboot2BasicHeader}. Enumerated completely: slice length 0..=56 (thorough 88) x start misalignment 0..=7 x declared size 0..=len+16. The header's other words (type, reserved, magic) are markers, all ones, small numbers (1..=640), zero, the byte-swapped magic, a small defined id or the right value: success and size must not depend on them. Every case is evaluated for its header kind and then, on the same memory (same address and length), for the other four kinds. Generated: lengths to 70000 incl. 8-aligned lengths around 4096/8192/16384/32768/65536, declared sizes around the length / around those bounds / tiny / uniform below the length / random. Oracle: error precedence of the statement, then address/header/payload/size_of_val equalities. Non-trivial = every case except (valid, declared == len); distinct by (header, len, misalignment, declared)",
             profiles: Profiles::Both,
             quick: 40000,
             thorough: 3000000,
